@@ -272,15 +272,15 @@ var _ = shared.NewCounter
 // ---- C13: value objects are written in place only by the assignment machinery ---------------------------
 // Write-site scan over the whole module (K5, every run): the only functions that contain a store into a
 // field of an EXISTING object of a type of package value (initialising a new object does not count) are
-// the assignment operators of package assign (their frames - only the left operand - are proved above),
-// the variable setters of package variable, the director configuration, Ratecounter.Increment and the
-// tester's inject function. No expression evaluator, operator or built-in function is among them: evaluating
+// functions of packages assign (the assignment operators; their frames - only the left operand - are proved
+// above), variable (the variable setters) and value itself (Ratecounter.Increment), the director
+// configuration and the tester's inject function. No expression evaluator, operator or built-in function is among them: evaluating
 // an expression cannot change a variable's value object in place.
 // (Not seen by the scan: (*value.Time).Set, whose field is a struct of package time.)
 //@ func (*Interpreter).ProcessExpression [C13]
 // The current frame - the local-variable map and the regex capture object - is replaced only by the two
 // call functions (and their deferred restores); the captures also by the `~` operator, which the property allows.
-//@   only-writers [C13] F:interpreter.Interpreter.callStack : ProcessSubroutine ProcessSubroutine$1 ProcessFunctionSubroutine ProcessFunctionSubroutine$1
-//@   only-writers [C13] F:interpreter.Interpreter.localVars : ProcessSubroutine ProcessSubroutine$1 ProcessFunctionSubroutine ProcessFunctionSubroutine$1
-//@   only-writers [C13] F:interpreter/context.Context.RegexMatchedValues : ProcessSubroutine ProcessSubroutine$1 ProcessFunctionSubroutine ProcessFunctionSubroutine$1 Regex
-//@   only-writers [C13] F:interpreter/value. : Assign Addition Subtraction Multiplication Division Remainder BitwiseAND BitwiseOR BitwiseXOR LeftShift RightShift LeftRotate RightRotate LogicalAND LogicalOR UpdateHash Set Unset assignHeaderValue getDirectorConfig getDirectorConfigBackend setDirectorConfigProperty Increment Testing_inject_variable
+//@   only-writers [C13] F:interpreter.Interpreter.callStack : ProcessSubroutine* ProcessFunctionSubroutine*
+//@   only-writers [C13] F:interpreter.Interpreter.localVars : ProcessSubroutine* ProcessFunctionSubroutine*
+//@   only-writers [C13] F:interpreter/context.Context.RegexMatchedValues : ProcessSubroutine* ProcessFunctionSubroutine* Regex
+//@   only-writers [C13] F:interpreter/value. : pkg:interpreter/assign pkg:interpreter/variable pkg:interpreter/value getDirectorConfig* setDirectorConfigProperty* Testing_inject_variable
